@@ -71,7 +71,14 @@ def make_signals(d):
     if d.get("offset"):
         x += np.array(d["offset"])[:, None]
     x *= np.array(d["scale"])[:, None]
+    if d.get("dtype"):     # integer-typed raw counts: integer-valued samples of amplitude iamp per channel
+        x = integer_valued(x, d["iamp"])
     return x[:M].copy(), x[M].copy()
+
+
+def integer_valued(x, amps):
+    amps = np.asarray(amps, dtype=float)[:x.shape[0], None]
+    return np.round(x / np.abs(x).max(axis=1, keepdims=True) * amps)
 
 
 def shape_form(x, form):
@@ -79,17 +86,20 @@ def shape_form(x, form):
     if form == "fortran":
         return np.asfortranarray(x)
     if form == "strided":
-        big = np.zeros((x.shape[0], 2 * x.shape[1]))
+        big = np.zeros((x.shape[0], 2 * x.shape[1]), dtype=x.dtype)
         big[:, ::2] = x
         return big[:, ::2]
     if form == "rowstrided":
-        big = np.zeros((2 * x.shape[0], x.shape[1]))
+        big = np.zeros((2 * x.shape[0], x.shape[1]), dtype=x.dtype)
         big[::2] = x
         return big[::2]
     return x
 
 
-def gen_input(rng, quick, big=False, kind=None, M=None):
+IAMP = {"int16": [100, 3000, 30000], "int32": [500, 10 ** 6, 2 ** 30], "int64": [1000, 2 ** 33, 2 ** 45]}
+
+
+def gen_input(rng, quick, big=False, kind=None, M=None, dtype="random"):
     meth = kind or rng.choice(["welch", "welch", "welch", "mt", "mt_adaptive", "periodogram"])
     if M is not None:
         pass
@@ -186,8 +196,13 @@ def gen_input(rng, quick, big=False, kind=None, M=None):
             lb = ["grid", kl]
             if ub is not None:
                 ub = None
+    if dtype == "random":
+        dtype = rng.choice([None, None, None, None, "int16", "int32", "int64"])
+    iamp = [rng.choice(IAMP[dtype]) for _ in range(M + 1)] if dtype else None
+    side = rng.choice(["float32", "float32", "int16", "int32", "int64", None])
     return {"seed": rng.randrange(10 ** 6), "M": M, "N": N, "method": method, "mix": mix, "tone": tone,
-            "scale": scale, "gains": gains, "offset": offset, "form": form,
+            "scale": scale, "gains": gains, "offset": offset, "form": form, "dtype": dtype, "iamp": iamp,
+            "side_dtype": side, "side_form": rng.choice(["plain", "fortran", "strided", "rowstrided"]),
             "lb": lb, "ub": ub, "kind": meth, "big": big}
 
 
@@ -247,8 +262,9 @@ class Run:
         x0, r0 = make_signals(d)
         self.x0, self.r0 = x0, r0                      # contiguous copies, for the independent references
         form = d.get("form", "plain")
-        x = shape_form(x0, form)
-        r = shape_form(r0[None, :], form if form in ("fortran", "strided") else "plain")[0]
+        xt, rt = (x0.astype(d["dtype"]), r0.astype(d["dtype"])) if d.get("dtype") else (x0, r0)
+        x = shape_form(xt, form)
+        r = shape_form(rt[None, :], form if form in ("fortran", "strided") else "plain")[0]
         self.x, self.r = x, r
         m = dict(d["method"])
         if form == "nokey" and m["this_method"] == "welch":
@@ -708,8 +724,92 @@ def oracle(R):
             if np.abs(a - b).max() > 1e-7:
                 fail("mt.coherence", "gain", "multitaper coherence changes under channel gains",
                      float(np.abs(a - b).max()), 0)
+    fails.extend(dtype_fails(R, check_coh))
     fails.extend(access_order_fails(R, check_coh))
     fails.extend(reuse_fails(R, check_coh))
+    return fails
+
+
+# ------------------------------------------------------------------ sample dtypes
+def dtype_fails(R, check_coh):
+    """Every function-level routine on the SAME samples stored as int16/int32/int64/float32 (any memory layout)
+    and stored as float64: results must agree (integers: the samples are exactly representable, 1e-9; float32:
+    1e-5, the FFT runs in single precision) and the integer-typed results meet bounds / diagonal / symmetry."""
+    import nitime.algorithms.cohere as coh
+    d = R.d
+    sd = d.get("side_dtype")
+    if not sd:
+        return []
+    fails = []
+    M = d["M"]
+    m = dict(d["method"])
+    xall = np.vstack([R.x0, R.r0[None, :]])
+    if sd == "float32":
+        x64 = (xall / np.abs(xall).max(axis=1, keepdims=True)).astype(np.float32).astype(np.float64)
+        tol = 1e-5 * max(1.0, d["N"] / 128.0)     # single-precision FFT: the error grows with the length
+    else:
+        amps = [IAMP[sd][(d["seed"] + i) % 3] for i in range(M + 1)]
+        x64 = integer_valued(xall, amps)
+        tol = 1e-9
+    xt = x64.astype(sd)
+    form = d.get("side_form", "plain")
+    xs, rs = shape_form(xt[:M], form), shape_form(xt[M:], form if form != "rowstrided" else "plain")[0]
+    xf, rf = x64[:M].copy(), x64[M].copy()
+    eps_ = float(np.mean(xf ** 2)) * 1e-3
+    lb, ub = d["lb"], d["ub"]
+    calls = [("coherence", lambda a, r: coh.coherence(a, dict(m))[1], "real"),
+             ("coherency", lambda a, r: coh.coherency(a, dict(m))[1], "complex"),
+             ("coherence_bavg", lambda a, r: coh.coherence_bavg(a, lb=lb, ub=ub, csd_method=dict(m)), "real"),
+             ("coherency_bavg", lambda a, r: coh.coherency_bavg(a, lb=lb, ub=ub, csd_method=dict(m)), "complex"),
+             ("coherency_regularized", lambda a, r: coh.coherency_regularized(a, eps_, 2.0, dict(m))[1], "complex"),
+             ("coherence_regularized", lambda a, r: coh.coherence_regularized(a, eps_, 2.0, dict(m))[1], "real"),
+             ("phase", lambda a, r: coh.coherency_phase_spectrum(a, dict(m))[1], "angle"),
+             ("delay", lambda a, r: coh.coherency_phase_delay(a, lb=lb, ub=ub, csd_method=dict(m)), "delay")]
+    if R.partial_ok:
+        calls.append(("coherence_partial", lambda a, r: coh.coherence_partial(a, r, dict(m))[1], "partial"))
+    res = {}
+    for name, fn_, kind in calls:
+        try:
+            a, b = fn_(xs, rs), fn_(xf, rf)
+        except Exception as e:
+            fails.append(Fail("C08/%s/dtype" % name, "%s input (%s layout) raised %s: %s" % (sd, form, type(e).__name__, e),
+                              None, None, {"entry_point": name, "dtype": sd}))
+            continue
+        if kind == "delay":
+            w = 2 * np.pi * np.asarray(a[0])
+            a, b = np.exp(1j * np.asarray(a[1]) * w), np.exp(1j * np.asarray(b[1]) * w)
+            off = ~np.eye(M, dtype=bool)
+            a, b = a[off], b[off]
+        elif kind == "angle":
+            off = ~np.eye(M, dtype=bool)
+            a, b = np.exp(1j * np.asarray(a))[off], np.exp(1j * np.asarray(b))[off]
+        else:
+            a, b = np.asarray(a), np.asarray(b)
+        res[name] = a
+        t = tol
+        if a.shape != b.shape:
+            e = None
+        elif kind == "partial":
+            a, b = a.real, b.real
+            cr = np.array([np.abs(q[3]) ** 2 / (q[1] * q[2]) for q in R.bi])
+            D = np.maximum((1 - cr)[:, None, :] * (1 - cr)[None, :, :], 1e-300)
+            e = float(np.nanmax(np.abs(a - b) * np.minimum(D, 1.0) ** 2)) if sd == "float32" else float(np.nanmax(np.abs(a - b) * np.minimum(D, 1.0)))
+            t = tol * 10
+        elif a.size == 0:
+            e = 0.0
+        elif _bad(a) and _bad(b) and name in ("coherence_bavg", "coherency_bavg"):
+            e = 0.0
+        else:
+            e = float(np.nanmax(np.abs(a - b))) if not _bad(a) else float("inf")
+        if e is None or not e <= t:
+            fails.append(Fail("C08/%s/dtype" % name,
+                              "%s differs between %s samples (%s layout) and the same samples stored as float64" % (name, sd, form),
+                              e, 0, {"entry_point": name, "dtype": sd}))
+    if sd != "float32":
+        if "coherence" in res and res["coherence"].ndim == 3:
+            check_coh("coherence(%s)" % sd, res["coherence"])
+        if "coherence_bavg" in res and not _bad(res["coherence_bavg"]) and res["coherence_bavg"].size:
+            check_coh("coherence_bavg(%s)" % sd, res["coherence_bavg"])
     return fails
 
 
@@ -897,7 +997,9 @@ def run(ctx):
     if os.environ.get("C08_DEV_KINDS") is not None:      # development aid: a reduced run
         kinds = [k for k in os.environ["C08_DEV_KINDS"].split(",") if k]
     chans = [2, 3, 4, 5, 3, 2, 4, 3, 3, 3, 3] + [None] * len(kinds)     # quick: every channel count occurs
-    inputs = corpus_inputs() + [gen_input(ctx.rng, ctx.quick, kind=k, M=(chans[n] if ctx.quick else None))
+    dts = ([None, "int16", None, "int64", None, "int32", None, None, "int32", None, "int16"] + [None] * len(kinds)
+           if ctx.quick else ["random"] * len(kinds))     # quick: integer-typed signals for 5 of the K inputs
+    inputs = corpus_inputs() + [gen_input(ctx.rng, ctx.quick, kind=k, M=(chans[n] if ctx.quick else None), dtype=dts[n])
                                 for n, k in enumerate(kinds)]
     big = [gen_input(ctx.rng, ctx.quick, big=True) for _ in range(ctx.scale(40, 250))]
     cases, runs = [], []
